@@ -263,6 +263,9 @@ func (ex *Exec) calleeEnv(fc *FuncContract, fn *ssa.Function, sig *types.Signatu
 			env[fmt.Sprintf("arg%d", i)] = SV{V: a, T: typs[i]}
 		}
 	}
+	if fn != nil && len(fn.Params) == len(args) {
+		aliasRenamed(fn, env)
+	}
 	return env
 }
 
@@ -481,6 +484,14 @@ func mentionsCalleeLocal(fn *ssa.Function, err error) bool {
 	for _, l := range fn.Locals {
 		if l.Comment == name {
 			return true
+		}
+	}
+	// a local of the callee that was merely renamed (see renames.go)
+	if cur, ok := renamedVariables(fn)[name]; ok {
+		for _, l := range fn.Locals {
+			if l.Comment == cur {
+				return true
+			}
 		}
 	}
 	return false
